@@ -3,7 +3,7 @@
 From Coq Require Import List Arith Bool.
 From M Require Import Base Flat Hsm HsmSpec.
 From P Require Import HsmForest HsmResolve HsmOffer MonadP CrashGen HsmExec.
-From P Require HsmIff HsmDecl.
+From P Require HsmIff HsmDecl HsmReach HsmTotal.
 Import ListNotations.
 
 (* ---------- transition resolution ---------- *)
@@ -158,6 +158,47 @@ Theorem C03_undeclared_is_invalid :
     (tr = [] /\ f' = f /\ check_leaves hm e (leaves f) p f = ([], f, r)).
 Proof. exact HsmDecl.undeclared_is_invalid. Qed.
 Print Assumptions C03_undeclared_is_invalid.
+
+(* "raises MachineError exactly when no active state or ancestor declares the event", the missing half: the engine
+   itself never fails.  For every state tree (parallel regions, nested scopes), when no callback raises, initial
+   lists have no duplicates (wf_defs), every destination names a registered state of the scope its transition is
+   declared in (dst_ok, decidable) and the configuration is good (unique sibling names, registered states only -
+   an invariant, see below), processing an event leaves a good configuration and the ONLY exceptions that can
+   reach the caller are the invalid-trigger errors of _check_event_result (MachineError, or AttributeError for an
+   event that is no trigger of the machine at all) - and then no on_exception handler is registered and no active
+   state or ancestor declares the event.  No ValueError / KeyError-like failure of the engine is possible. *)
+Theorem C03_no_internal_error :
+  forall (hm : hmachine) (ev : env) (c : ctx) (e : event) (p : nat) (f : forest) tr f' r,
+    (forall cb q, r_raise (ev cb q) = None) ->
+    HsmReach.wf_defs hm = true -> HsmTotal.dst_ok hm = true -> HsmTotal.good hm f ->
+    Hsm.trigger_event hm ev c e p f = (tr, f', r) ->
+    HsmTotal.good hm f' /\
+    (forall x, r = inl x -> (x = MachineError \/ x = AttributeError) /\ hm_on_exception hm = [] /\
+                            ~ HsmDecl.declares hm e f).
+Proof. exact HsmTotal.hsm_no_internal_error. Qed.
+Print Assumptions C03_no_internal_error.
+
+(* the hypothesis on the configuration is met by the configuration add_model puts a model in (and kept by the
+   theorem above, so by every configuration reached through events) *)
+Theorem C03_initial_good :
+  forall (hm : hmachine) (ini : path) (d : sdefn),
+    HsmReach.wf_defs hm = true -> find_def (hm_states hm) ini = Some d ->
+    HsmTotal.good hm (chain_tree ini (initial_tree def_depth_bound d)).
+Proof. exact HsmTotal.initial_good. Qed.
+Print Assumptions C03_initial_good.
+
+(* non-vacuity: the machine of KF-C03-1 below meets the decidable hypotheses *)
+Example C03_no_internal_error_nonvacuous :
+  let hm := mkHM [SDef 1 [] [] [] false None [2; 4] [(0, [mkHT [2] (Some [4; 5]) [] [] [20] []])]
+                    [SDef 2 [] [] [] false None [3] [] [SDef 3 [] [] [] false None [] [] []];
+                     SDef 4 [] [] [] false None [5] [] [SDef 5 [] [] [] false None [] [] []; SDef 6 [] [] [] false None [] [] []]]]
+                 [(0, [mkHT [1; 4; 5] (Some [1; 4; 6]) [] [] [30] []])] [] [] [] [] [] [] false false in
+  HsmReach.wf_defs hm = true /\ HsmTotal.dst_ok hm = true /\
+  snd (Hsm.trigger_event hm (fun _ _ => mkReply true None []) (mkCtx 0 0 false) 0 0
+         [Node 1 [Node 2 [Node 3 []]; Node 4 [Node 5 []]]]) = inr true /\
+  snd (Hsm.trigger_event hm (fun _ _ => mkReply true None []) (mkCtx 0 0 false) 1 0
+         [Node 1 [Node 2 [Node 3 []]; Node 4 [Node 5 []]]]) = inl AttributeError.
+Proof. vm_compute. repeat split; reflexivity. Qed.
 
 (* ---------- the same event in two scopes (KF-C03-1) ---------- *)
 (* An ancestor's transition declared inside a state definition wins over its descendant's
